@@ -809,6 +809,8 @@ pub fn execute(d: &ConcDesc, keep_trace: bool) -> RunResult {
     // swarm knob: in one run of three freed JIT pages are handed out again instead of quarantined
     let page_reuse = crate::rng::derive(d.run_seed, &[crate::rng::label("page-reuse")]) % 3 == 0;
     alloc::PAGE_REUSE.store(page_reuse, SeqCst);
+    // ... and in half of those a module of the same shape gets every block back in the same role
+    alloc::PAGE_REUSE_SAME_ROLE.store(crate::rng::derive(d.run_seed, &[crate::rng::label("page-reuse")]) % 6 == 0, SeqCst);
     let mut res = RunResult::default();
     let mut out = sched::SimOutcome::default();
     let mut n_calls = 0u64;
